@@ -59,6 +59,20 @@ def shards(tier, seed):
 # generators
 # ------------------------------------------------------------------------------------
 
+_SHARED_OP4 = []
+
+
+def _O(op4, fc):
+    """An OP4 object for this file: a fresh one, or (every third file) ONE instance that
+    lives for the whole shard and therefore sees binary after ASCII, big- after little-
+    endian, bigmat after dense ... -- nothing it detected for an earlier file may stick."""
+    if fc.get("index", 0) % 3 == 1:
+        if not _SHARED_OP4:
+            _SHARED_OP4.append(op4.OP4())
+        return _SHARED_OP4[0]
+    return op4.OP4()
+
+
 def _mag(r, n, fam):
     """n non-zero reals of magnitude family `fam`."""
     import numpy as np
@@ -482,8 +496,8 @@ def run_file(sh, fc, heavy=False):
     # ---- write ---------------------------------------------------------------------
     style = fc["style"]
     kw = dict(binary=binary, digits=digits, endian=endian, sparse=mode)
-    wr = {"write": op4.write, "save": op4.save, "OP4.write": op4.OP4().write,
-          "OP4.save": op4.OP4().save}[fc["writer"]]
+    wr = {"write": op4.write, "save": op4.save, "OP4.write": _O(op4, fc).write,
+          "OP4.save": _O(op4, fc).save}[fc["writer"]]
     try:
         with warnings.catch_warnings(record=True) as wlist:
             warnings.simplefilter("always")
@@ -552,9 +566,9 @@ def run_file(sh, fc, heavy=False):
             if reader == "load":
                 res = op4.load(fname, into="list", sparse=sparg)
             elif reader == "OP4.listload":
-                res = op4.OP4().listload(fname, sparse=sparg)
+                res = _O(op4, fc).listload(fname, sparse=sparg)
             elif reader == "OP4.load":
-                res = op4.OP4().load(fname, into="list", sparse=sparg)
+                res = _O(op4, fc).load(fname, into="list", sparse=sparg)
             else:
                 res = op4.read(fname, into="list", sparse=sparg)
         except Exception as e:
@@ -579,7 +593,7 @@ def run_file(sh, fc, heavy=False):
                     op4.load(fname, justmatrix=True, sparse=sparg)
             else:
                 d = op4.load(fname, sparse=sparg) if fc["index"] % 2 else \
-                    op4.OP4().dctload(fname, sparse=sparg)
+                    _O(op4, fc).dctload(fname, sparse=sparg)
         except Exception as e:
             sh.count("mon:exception-free-read")
             sh.violation("exception:read", case, {"exc": repr(e)[:300], "into": "dct"}, tags)
@@ -627,7 +641,7 @@ def run_file(sh, fc, heavy=False):
             sh.count("cell:namelist-subset-of-repeated-name")
         try:
             sn, sm, sf, st = op4.load(fname, namelist=arg, into="list", sparse=False) \
-                if fc["index"] % 2 else op4.OP4().listload(fname, namelist=arg,
+                if fc["index"] % 2 else _O(op4, fc).listload(fname, namelist=arg,
                                                            sparse=False)
             keep = [i for i, nm in enumerate(exp_names) if nm in sub]
             fn, fm, ff, ft = full
@@ -651,7 +665,7 @@ def run_file(sh, fc, heavy=False):
     sh.count("mon:dir")
     try:
         dn, ds, df, dm = (op4.dir(fname, verbose=False) if fc["index"] % 2
-                          else op4.OP4().dir(fname, verbose=False))
+                          else _O(op4, fc).dir(fname, verbose=False))
     except Exception as e:
         sh.violation("exception:dir", case, {"exc": repr(e)[:300]}, tags)
         return
